@@ -24,6 +24,23 @@ func ruleTLSSuccessEffects(c *Ctx) {
 	if f == nil {
 		return
 	}
+	// "clears the session" goes through setSession(nil): that helper stores its argument on every path — a guard in it
+	// ("only when no session is in place") turns the clearing into a no-op and the plaintext session survives the upgrade
+	if g := c.A.Func("(*Conn).setSession"); g != nil {
+		uncond := false
+		for _, st := range s.Find(g, "st:Conn.session") {
+			if _, _, v := storedField(st); v != nil && describe(v) == "param1" {
+				dom := true
+				allInstrs(g, func(in ssa.Instruction) {
+					if _, isRet := in.(*ssa.Return); isRet && in.Block() != g.Recover && !(st.Block() == in.Block() || st.Block().Dominates(in.Block())) {
+						dom = false
+					}
+				})
+				uncond = uncond || dom
+			}
+		}
+		R.Ob("(*Conn).setSession/stores its argument on every path", c.P.Pos(g.Pos()), uncond, "setSession does not store its parameter into Conn.session unconditionally: setSession(nil) after the STARTTLS logout may leave the logged-out plaintext session installed (the next EHLO then resets it instead of creating a session that sees the TLS state)")
+	}
 	// the upgrade point: the store itself, or the call of a helper of this handler that certainly performs it
 	up := s.Find(f, "st:Conn.conn")
 	allInstrs(f, func(in ssa.Instruction) {
